@@ -232,3 +232,21 @@ def default_zsk_policy(**kw) -> dict:
          "max_overlap": D(days=12), "min_overlap": D(days=9), "algs": [("RSA", 8, 1024, 65537)]}
     p.update(kw)
     return p
+
+
+def render_skr(resp: dict) -> str:
+    """resp: {id, serial, domain, ksk: policy, zsk: policy, bundles: [{id, inc, exp, keys, sigs}]} (reference SKR writer)."""
+    out = ('<?xml version="1.0" encoding="UTF-8"?>\n'
+           f'<KSR id="{resp["id"]}" domain="{resp["domain"]}" serial="{resp["serial"]}">\n  <Response>\n    <ResponsePolicy>\n')
+    out += xml_policy("KSK", resp["ksk"])
+    out += xml_policy("ZSK", resp["zsk"])
+    out += "    </ResponsePolicy>\n"
+    for b in resp["bundles"]:
+        out += f'    <ResponseBundle id="{b["id"]}">\n      <Inception>{fmt_dt(b["inc"])}</Inception>\n      <Expiration>{fmt_dt(b["exp"])}</Expiration>\n'
+        for k in b["keys"]:
+            out += xml_key(k)
+        for s in b["sigs"]:
+            out += xml_sig(s)
+        out += "    </ResponseBundle>\n"
+    out += "  </Response>\n</KSR>\n"
+    return out
